@@ -142,6 +142,11 @@ class StubMatcher:
             k = name[6:]
 
             def m(token, k=k):
+                if not hasattr(token, "kinds"):
+                    # the parser asks about a token that did not come from the scanner object it was handed
+                    from .common import Violation
+                    raise Violation({"sub": "foreign-token", "asked": k}, "the parser was given a scanner object (anything with read()) but matches a token that object never "
+                                    "delivered: %r at %r" % (getattr(getattr(token, "line", None), "_line_text", token), getattr(token, "location", None)))
                 self.calls.append((k, token.location["line"]))
                 ok = k in token.kinds
                 if ok:
